@@ -11,10 +11,10 @@ git -C "$WT" apply "$DIFF"
 (cd "$WT" && go build ./... ) || { echo "SEED $ID: does not compile"; exit 3; }
 suite=$(cd "$WT" && go test -vet=off -count=1 ./... 2>&1 | grep -c "^FAIL")
 cp "$DEMO" "$WT/$PKG/zz_demo_test.go"
-with=$(cd "$WT" && timeout 300 go test -vet=off -count=1 -run "$RUN" ./$PKG/ 2>&1 | tail -40)
+with=$(cd "$WT" && timeout 600 go test ${RACE:+-race} -vet=off -count=1 -run "$RUN" ./$PKG/ 2>&1 | tail -40)
 withrc=$(echo "$with" | grep -cE "^(FAIL|panic:|--- FAIL)|fatal error|timed out")
 git -C "$WT" checkout -q -- . 
-without=$(cd "$WT" && timeout 300 go test -vet=off -count=1 -run "$RUN" ./$PKG/ 2>&1 | tail -5)
+without=$(cd "$WT" && timeout 600 go test ${RACE:+-race} -vet=off -count=1 -run "$RUN" ./$PKG/ 2>&1 | tail -5)
 withoutok=$(echo "$without" | grep -c "^ok")
 rm -f "$WT/$PKG/zz_demo_test.go"; git -C "$WT" clean -fdq
 echo "SEED $ID: suite_fail_lines=$suite demo_with_change_fail_markers=$withrc demo_without_change_ok=$withoutok"
